@@ -190,6 +190,9 @@ func (self *visitorUserNode) OnBool(v bool) error {
 		fieldDesc = top.state.fieldDesc
 	}
 
+	if fieldDesc == nil {
+		return newError(meta.ErrDismatchType, "value has no field to go to (a message must be a JSON object)", nil)
+	}
 	if fieldDesc.Kind() != proto.BoolKind {
 		return newError(meta.ErrDismatchType, "param isn't boolType", nil)
 	}
@@ -224,6 +227,9 @@ func (self *visitorUserNode) OnString(v string) error {
 	fieldDesc := self.globalFieldDesc
 	if fieldDesc == nil && top != nil && top.Type().IsList() {
 		fieldDesc = top
+	}
+	if fieldDesc == nil {
+		return newError(meta.ErrDismatchType, "value has no field to go to (a message must be a JSON object)", nil)
 	}
 	if fieldDesc.Type().IsList() && self.stk[self.sp].typ != arrStkType {
 		return newError(meta.ErrDismatchType, "repeated field needs an array", nil)
@@ -269,6 +275,9 @@ func (self *visitorUserNode) OnInt64(v int64, n json.Number) error {
 		fieldDesc = top.state.fieldDesc
 	}
 
+	if fieldDesc == nil {
+		return newError(meta.ErrDismatchType, "value has no field to go to (a message must be a JSON object)", nil)
+	}
 	if fieldDesc.Type().IsList() && top.typ != arrStkType {
 		return newError(meta.ErrDismatchType, "repeated field needs an array", nil)
 	}
@@ -367,6 +376,9 @@ func (self *visitorUserNode) OnFloat64(v float64, n json.Number) error {
 		fieldDesc = top.state.fieldDesc
 	}
 
+	if fieldDesc == nil {
+		return newError(meta.ErrDismatchType, "value has no field to go to (a message must be a JSON object)", nil)
+	}
 	if fieldDesc.Type().IsList() && top.typ != arrStkType {
 		return newError(meta.ErrDismatchType, "repeated field needs an array", nil)
 	}
